@@ -653,6 +653,8 @@ _SC = "algos/doe/scipy/scipy_doe.py"
 _PY = "algos/doe/pydoe/pydoe.py"
 _OT = "algos/doe/openturns/openturns.py"
 WITNESSES = [
+    {"name": "seeded-C14-10", "file": "algos/doe/openturns/_algos/ot_full_factorial_doe.py", "old": "from numpy import full\nfrom openturns import Box\n\nfrom gemseo.algos.doe.base_full_factorial_doe import BaseFullFactorialDOE\n\nif TYPE_CHECKING:\n    from collections.abc import Iterable\n\n    from gemseo.typing import RealArray\n\n\nclass OTFullFactorialDOE(BaseFullFactorialDOE):\n    \"\"\"The full-factorial DOE.\n\n    .. note:: This class is a singleton.\n    \"\"\"\n\n    def _generate_fullfact_from_levels(self, levels: Iterable[int]) -> RealArray:\n        # This method relies on openturns.Box.\n        # This latter assumes that the levels provided correspond to the intermediate\n        # levels between lower and upper bounds, while GEMSEO includes these bounds\n        # in the definition of the levels, so we subtract 2 in order to get\n        # only intermediate levels.\n        levels = [level - 2 for level in levels]\n\n        # If any level is negative, we take them out, generate the DOE,\n        # then append the DOE with 0.5 for the missing levels.\n        ot_indices = []\n        ot_levels = []\n        for ot_index, ot_level in enumerate(levels):\n            if ot_level >= 0:\n                ot_levels.append(ot_level)\n                ot_indices.append(ot_index)\n\n        if not ot_levels:\n            return full([1, len(levels)], 0.5)\n\n        ot_doe = array(Box(ot_levels).generate())\n\n        if len(ot_levels) == len(levels):\n            return ot_doe\n\n        doe = full([ot_doe.shape[0], len(levels)], 0.5)\n        doe[:, ot_indices] = ot_doe\n        return doe\n", "new": "from numpy import full\nfrom numpy import hstack\nfrom openturns import Box\n\nfrom gemseo.algos.doe.base_full_factorial_doe import BaseFullFactorialDOE\n\nif TYPE_CHECKING:\n    from collections.abc import Iterable\n\n    from gemseo.typing import RealArray\n\n\nclass OTFullFactorialDOE(BaseFullFactorialDOE):\n    \"\"\"The full-factorial DOE.\n\n    .. note:: This class is a singleton.\n    \"\"\"\n\n    def _generate_fullfact_from_levels(self, levels: Iterable[int]) -> RealArray:\n        # This method relies on openturns.Box.\n        # This latter assumes that the levels provided correspond to the intermediate\n        # levels between lower and upper bounds, while GEMSEO includes these bounds\n        # in the definition of the levels, so we subtract 2 in order to get\n        # only intermediate levels.\n        levels = [level - 2 for level in levels]\n\n        # If any level is negative, we take them out, generate the DOE,\n        # then append the DOE with 0.5 for the missing levels.\n        ot_levels = [ot_level for ot_level in levels if ot_level >= 0]\n        if not ot_levels:\n            return full([1, len(levels)], 0.5)\n\n        ot_doe = array(Box(ot_levels).generate())\n        n_missing_levels = len(levels) - len(ot_levels)\n        if not n_missing_levels:\n            return ot_doe\n\n        return hstack((ot_doe, full([ot_doe.shape[0], n_missing_levels], 0.5)))\n", "expect": "14.10", "note": "OT_FULLFACT appends the single-level (0.5) columns at the end instead of putting"},
+    {"name": "seeded-C14-9", "file": "algos/design_space.py", "old": "        if minus_lb and not self.__no_integer:\n            self.round_vect(out, copy=False)\n            if recast_to_int:\n                out = out.astype(self.__INT_DTYPE)\n\n", "new": "        if minus_lb and not self.__no_integer:\n            if recast_to_int:\n                out = out.astype(self.__INT_DTYPE)\n            else:\n                self.round_vect(out, copy=False)\n\n", "expect": "14.9", "note": "unnormalize_vect casts to int instead of rounding when the design space has an i"},
     {"name": "sobol-sub-sample-size-rounded", "file": _OTS, "old": "            sub_sample_size = int(n_samples / (dimension + 2))", "new": "            sub_sample_size = round(n_samples / (dimension + 2))", "expect": "14.6"},
     {"name": "composite-centre-point-forgotten", "file": "algos/doe/openturns/_algos/ot_composite_doe.py", "old": "n_levels = int((n_samples - 1) / (2 * dimension + 2**dimension))", "new": "n_levels = int(n_samples / (2 * dimension + 2**dimension))", "expect": "14.5"},
     {"name": "axial-levels-per-direction", "file": "algos/doe/openturns/_algos/ot_axial_doe.py", "old": "n_levels = int((n_samples - 1) / 2 / dimension)", "new": "n_levels = int((n_samples - 1) / dimension)", "expect": "14.5"},
